@@ -149,6 +149,8 @@ pub fn siqs(
         return Ok(vec![]);
     }
     let mut rels = s.rels.into_inner().unwrap();
+    #[cfg(yamaquasi_verif)]
+    crate::relations::verif_hooks::observe_final(&rels);
     // Log final progress
     let pdone = s.polys_done.load(Ordering::Relaxed);
     if prefs.verbose(Verbosity::Info) {
